@@ -9,7 +9,9 @@ Local Open Scope Z_scope.
 
 (** equal?: structural equality on pairs, eqv? at the leaves *)
 Definition n_equalp := [101;113;117;97;108;63].
-Definition n_y : str := s [121].
+(* the parameter names as they are in base.sld now (so that a renaming re-proves) *)
+Definition p_equalp_0 : str := Eval vm_compute in par n_equalp 0.
+Definition p_equalp_1 : str := Eval vm_compute in par n_equalp 1.
 
 Lemma equalp_closure : forall c, code_of n_equalp = Some c ->
   forall x y st lf, has_library st lf ->
@@ -22,11 +24,11 @@ Proof.
       try (eexists; split;
            [enter_tac; eapply evbody_last; eapply ev_if_true; [ev_simple|reflexivity|];
             eapply ev_if_false; [ev_simple|reflexivity|ev_simple] | keeps_tac]).
-    start_proc st lf [(n_x, VPair a b); (n_y, VPair c d)].
-    assert (HL1 : has_library (enter st lf [(n_x, VPair a b); (n_y, VPair c d)]) lf)
+    start_proc st lf [(p_equalp_0, VPair a b); (p_equalp_1, VPair c d)].
+    assert (HL1 : has_library (enter st lf [(p_equalp_0, VPair a b); (p_equalp_1, VPair c d)]) lf)
       by (eapply has_library_keeps; [exact HL | keeps_tac]).
     destruct (IHa c _ lf HL1) as [st2 [Hcar K2]].
-    transport (enter st lf [(n_x, VPair a b); (n_y, VPair c d)]) st2 K2.
+    transport (enter st lf [(p_equalp_0, VPair a b); (p_equalp_1, VPair c d)]) st2 K2.
     cbn [vequal]. destruct (vequal a c) eqn:E1.
     - assert (HL2 : has_library st2 lf) by (eapply has_library_keeps; [exact HL | keeps_tac]).
       destruct (IHb d _ lf HL2) as [st3 [Hcdr K3]].
